@@ -196,11 +196,11 @@ func genParserCfg(r *rand.Rand, kind string, maxB int) map[string]any {
 	if S >= B { // ShrinkSize = BufferSize is exercised by the C16 generator
 		S = B - 1
 	}
-	W := pickInt(r, 1, 2, 3, B/2, B-1, B, B+1, 2*B, 0, 7, 8, 9, 25)
+	W := pickInt(r, 1, 2, 3, B/2, B-1, B, B+1, 2*B, 0, 7, 8, 9, 25, 1<<31-1, 1<<31, 1<<32-8)
 	if W < 0 {
 		W = 1
 	}
-	Blk := pickInt(r, 1, 2, 3, 7, 8, 9, 31, 32, 33, 64, 100, B, 2*B, 0, 40, 50)
+	Blk := pickInt(r, 1, 2, 3, 7, 8, 9, 31, 32, 33, 64, 100, B, 2*B, 0, 40, 50, 1<<32-8)
 	c := map[string]any{"kind": kind, "BufferSize": B, "ShrinkSize": S, "WindowSize": W, "BlockSize": Blk}
 	hb := func(il int) int {
 		m := 8 * il
@@ -244,6 +244,9 @@ func genParserCfg(r *rand.Rand, kind string, maxB int) map[string]any {
 		}
 		if W != 0 && W < mm {
 			c["WindowSize"] = mm
+		}
+		if W > 1<<31-1 {
+			c["WindowSize"] = 1<<31 - 1
 		}
 	case "OSAP":
 		mm := pickInt(r, 2, 2, 3, 3, 4, 0)
@@ -363,7 +366,7 @@ func genParser(seed int64, n int, tier string, kinds []string, style string) []S
 				if k > len(data) {
 					k = len(data)
 				}
-				ops = append(ops, map[string]any{"op": "reset", "data": B2(data[:k]), "cap": pickInt(r, 0, 3, 7, 8, 20, B+8, 2*B+64)})
+				ops = append(ops, map[string]any{"op": "reset", "data": B2(data[:k]), "cap": pickInt(r, 0, 3, 7, 8, 20, B+8, 2*B+64, B-k+r.Intn(7), B-k+r.Intn(7))})
 				data = data[k:]
 			}
 			tags = append(tags, "reset")
@@ -453,7 +456,7 @@ func genParserRuns(seed int64, n int, tier string) []Script {
 			data = append(data, post...)
 		}
 		op := pumpOp(r, data, B, "mixed")
-		op["pntl"] = 0
+		op["pntl"] = pickInt(r, 0, 0, 0, 50, 100)
 		op["pnil"] = 0
 		ops := []map[string]any{op}
 		if r.Intn(3) == 0 {
@@ -504,7 +507,7 @@ func genParserCollide(seed int64, n int, tier string) []Script {
 		kind := kinds[i%len(kinds)]
 		B := pickInt(r, 64, 100, 150, 200, 256)
 		cfg := map[string]any{"kind": kind, "BufferSize": B, "ShrinkSize": pickInt(r, 0, 1, B/2, B-1),
-			"WindowSize": pickInt(r, B, 2*B, 0, B/2), "BlockSize": pickInt(r, 33, 64, 100, B, 2*B, 0)}
+			"WindowSize": pickInt(r, B, 2*B, 0, B/2, 1<<31, 1<<32-8, 4), "BlockSize": pickInt(r, 16, 33, 64, 100, B, 2*B, 0)}
 		bits := func() int { return r.Intn(4) }
 		switch kind {
 		case "HP", "BHP":
@@ -538,7 +541,7 @@ func genParserCollide(seed int64, n int, tier string) []Script {
 		}
 		op := pumpOp(r, data, B, "mixed")
 		op["pnil"] = 0
-		op["pntl"] = pickInt(r, 0, 0, 30)
+		op["pntl"] = pickInt(r, 0, 0, 30, 100)
 		out = append(out, Script{
 			Tid:  "parser-collide-" + itoa(seed) + "-" + itoa(int64(i)),
 			Comp: "parser", Cfg: cfg, Ops: []map[string]any{op},
@@ -563,7 +566,7 @@ func genParserCap(seed int64, n int, tier string) []Script {
 	for i := 0; i < n; i++ {
 		kind := parserKinds[i%len(parserKinds)]
 		cfg := genParserCfg(r, kind, 200)
-		B := pickInt(r, 1100, 1500, 2100)
+		B := pickInt(r, 1100, 1500, 2100, 1018+r.Intn(6), 1017+r.Intn(8))
 		cfg["BufferSize"], cfg["ShrinkSize"] = B, pickInt(r, 0, 1, B/2)
 		cfg["WindowSize"] = pickInt(r, B, 64, 2*B, 0)
 		cfg["BlockSize"] = pickInt(r, 256, 512, 1024, 0)
@@ -605,6 +608,19 @@ func genParserCap(seed int64, n int, tier string) []Script {
 		}
 		ops = append(ops, map[string]any{"op": "write", "p": B2(first)}, map[string]any{"op": "parse", "flags": 0},
 			map[string]any{"op": "byteat", "rel": "end", "d": -1})
+		if r.Intn(2) == 0 {
+			// fill the rest through ReadFrom (the read window must end at BufferSize)
+			rest := make([]byte, B)
+			for j := range rest {
+				rest[j] = pat[j%len(pat)]
+			}
+			ops = append(ops, map[string]any{"op": "readfrom", "src": B2(rest), "calls": []any{}},
+				map[string]any{"op": "parse", "flags": 0}, map[string]any{"op": "shrink"},
+				map[string]any{"op": "readfrom", "src": B2(rest[:B/2]), "calls": []any{[]any{7, ""}, []any{1000, ""}}})
+			for k := 0; k < 8; k++ {
+				ops = append(ops, map[string]any{"op": "parse", "flags": 0})
+			}
+		}
 		out = append(out, Script{Tid: "parser-cap-" + itoa(seed) + "-" + itoa(int64(i)), Comp: "parser", Cfg: cfg,
 			Ops: ops, Tags: []string{"go", kind, "capboundary"}})
 	}
